@@ -5,6 +5,7 @@ package main
 import (
 	"encoding/json"
 	"fmt"
+	"io"
 	"os"
 	"path/filepath"
 	"regexp"
@@ -85,18 +86,34 @@ type fnReport struct {
 	missing bool
 }
 
+type CheckOpts struct {
+	ID, Tier, Only string
+	Verbose        bool
+	Overlay        map[string][]byte
+	NoEvidence     bool
+	Out            io.Writer
+	Failed         []string // out: names of failed obligations
+	FailedStatus   map[string]string
+}
+
 func runCheck(id, tier string, only string, verbose bool) int {
+	return runCheckOpts(&CheckOpts{ID: id, Tier: tier, Only: only, Verbose: verbose, Out: os.Stdout})
+}
+
+func runCheckOpts(opts *CheckOpts) int {
+	id, tier, only, verbose, out := opts.ID, opts.Tier, opts.Only, opts.Verbose, opts.Out
+	opts.FailedStatus = map[string]string{}
 	start := time.Now()
 	seed := 0
 	fmt.Sscanf(os.Getenv("VERIF_SEED"), "%d", &seed)
 	pc, err := loadPropConfig(id)
 	if err != nil {
-		fmt.Printf("ENGINE-ERROR property=%s cannot load config: %v\n", id, err)
+		fmt.Fprintf(out,"ENGINE-ERROR property=%s cannot load config: %v\n", id, err)
 		return 2
 	}
-	prog, err := LoadProg(pc.Packages)
+	prog, err := LoadProg(pc.Packages, opts.Overlay)
 	if err != nil {
-		fmt.Printf("ENGINE-ERROR property=%s load: %v\n", id, err)
+		fmt.Fprintf(out,"ENGINE-ERROR property=%s load: %v\n", id, err)
 		return 2
 	}
 	loadT := time.Since(start).Seconds()
@@ -108,7 +125,7 @@ func runCheck(id, tier string, only string, verbose bool) int {
 	}
 	solver, err := NewSolver(timeout, thorough)
 	if err != nil {
-		fmt.Printf("ENGINE-ERROR %v\n", err)
+		fmt.Fprintf(out,"ENGINE-ERROR %v\n", err)
 		return 2
 	}
 	solver.keep = os.Getenv("GOVC_KEEP") != ""
@@ -194,7 +211,7 @@ func runCheck(id, tier string, only string, verbose bool) int {
 
 	if len(engineErrs) > 0 {
 		for _, e := range engineErrs {
-			fmt.Printf("ENGINE-ERROR property=%s %s\n", id, e)
+			fmt.Fprintf(out,"ENGINE-ERROR property=%s %s\n", id, e)
 		}
 	}
 
@@ -242,7 +259,7 @@ func runCheck(id, tier string, only string, verbose bool) int {
 				nProbeOK++
 				or.Status = "reachable"
 			case "unsat":
-				fmt.Printf("ENGINE-FAULT property=%s vacuity probe failed (assumptions contradictory): %s\n", id, o.Name)
+				fmt.Fprintf(out,"ENGINE-FAULT property=%s vacuity probe failed (assumptions contradictory): %s\n", id, o.Name)
 				faults++
 				or.Status = "VACUOUS"
 			default:
@@ -262,18 +279,20 @@ func runCheck(id, tier string, only string, verbose bool) int {
 				samples = append(samples, map[string]interface{}{"obligation": o.Name, "kind": o.Kind, "text": o.Text, "backend": r.Backend, "time_s": round3(r.TimeS), "smt_bytes": r.QuerySize})
 			}
 		case "disagree":
-			fmt.Printf("ENGINE-FAULT property=%s solver disagreement on %s: %s\n", id, o.Name, r.Raw)
+			fmt.Fprintf(out,"ENGINE-FAULT property=%s solver disagreement on %s: %s\n", id, o.Name, r.Raw)
 			faults++
 		default:
 			// sat or unknown: failed obligation
 			if kf := isKnown(o.Name); kf != nil {
-				fmt.Printf("KNOWN-FINDING: property=%s %s (%s)\n", id, kf.What, o.Name)
+				fmt.Fprintf(out,"KNOWN-FINDING: property=%s %s (%s)\n", id, kf.What, o.Name)
 				or.Status = "known-finding"
 				obres = append(obres, or)
 				nOb--
 				continue
 			}
 			violations++
+			opts.Failed = append(opts.Failed, o.Name)
+			opts.FailedStatus[o.Name] = r.Status
 			os.MkdirAll(replayDir, 0o755)
 			rp := filepath.Join(replayDir, sanitize(o.Name)+".json")
 			rf := map[string]interface{}{
@@ -291,8 +310,8 @@ func runCheck(id, tier string, only string, verbose bool) int {
 			}
 			data, _ := json.MarshalIndent(rf, "", " ")
 			os.WriteFile(rp, data, 0o644)
-			fmt.Printf("FAILED-OBLIGATION %s [%s] %s (%s)\n", o.Name, r.Status, o.Text, o.Pos)
-			fmt.Printf("VIOLATION property=%s replay=%s%s\n", id, rp, suffix)
+			fmt.Fprintf(out,"FAILED-OBLIGATION %s [%s] %s (%s)\n", o.Name, r.Status, o.Text, o.Pos)
+			fmt.Fprintf(out,"VIOLATION property=%s replay=%s%s\n", id, rp, suffix)
 		}
 		obres = append(obres, or)
 	}
@@ -309,17 +328,17 @@ func runCheck(id, tier string, only string, verbose bool) int {
 				}
 			}
 			if !hasPost {
-				fmt.Printf("ENGINE-FAULT property=%s function %s generated no post/bounds/nowrap obligation\n", id, rep.Name)
+				fmt.Fprintf(out,"ENGINE-FAULT property=%s function %s generated no post/bounds/nowrap obligation\n", id, rep.Name)
 				faults++
 			}
 		}
 	}
 	if only == "" && (nOb == 0 || nOb < pc.MinObligations) {
-		fmt.Printf("ENGINE-FAULT property=%s only %d obligations generated (expected at least %d)\n", id, nOb, pc.MinObligations)
+		fmt.Fprintf(out,"ENGINE-FAULT property=%s only %d obligations generated (expected at least %d)\n", id, nOb, pc.MinObligations)
 		faults++
 	}
 	for _, d := range drift {
-		fmt.Printf("DRIFT property=%s %s\n", id, d)
+		fmt.Fprintf(out,"DRIFT property=%s %s\n", id, d)
 	}
 
 	// evidence
@@ -380,20 +399,20 @@ func runCheck(id, tier string, only string, verbose bool) int {
 	}
 	os.MkdirAll(filepath.Join(verifDir(), "evidence"), 0o755)
 	data, _ := json.MarshalIndent(ev, "", " ")
-	if only == "" {
+	if only == "" && !opts.NoEvidence {
 		os.WriteFile(filepath.Join(verifDir(), "evidence", id+".json"), data, 0o644)
 	}
 
-	fmt.Printf("property=%s tier=%s functions=%d obligations=%d discharged=%d probes=%d/%d violations=%d wall=%.1fs (load %.1fs, vcgen %.1fs, solver cpu %.1fs)\n",
+	fmt.Fprintf(out,"property=%s tier=%s functions=%d obligations=%d discharged=%d probes=%d/%d violations=%d wall=%.1fs (load %.1fs, vcgen %.1fs, solver cpu %.1fs)\n",
 		id, tier, len(fuc), nOb, nDis, nProbeOK, nProbe, violations, time.Since(start).Seconds(), loadT, genT, solverTime)
 	if verbose {
 		for _, or := range obres {
-			fmt.Printf("  %-14s %-8s %6.2fs %s\n", or.Status, or.Backend, or.TimeS, or.Name)
+			fmt.Fprintf(out,"  %-14s %-8s %6.2fs %s\n", or.Status, or.Backend, or.TimeS, or.Name)
 		}
 		for _, rep := range reports {
 			if rep.vc != nil {
 				for _, n := range rep.vc.notes {
-					fmt.Printf("  note %s: %s\n", rep.Name, n)
+					fmt.Fprintf(out,"  note %s: %s\n", rep.Name, n)
 				}
 			}
 		}
